@@ -334,7 +334,9 @@ func (ex *Exec) applyContract(v ssa.Value, fc *FuncContract, cname string, names
 			vc.ctx.contractError(fc, c, err)
 			continue
 		}
-		ex.oblig("pre@call", c.Label, sn, instr.Pos(), fmt.Sprintf("(=> %s %s)", g, t), []string{ex.prop})
+		if !(c.TypeInv && !ex.isTypeInvOwner()) {
+			ex.oblig("pre@call", c.Label, sn, instr.Pos(), fmt.Sprintf("(=> %s %s)", g, t), []string{ex.prop})
+		}
 		vc.assume(fmt.Sprintf("(=> %s %s)", g, t))
 	}
 	// frame
@@ -631,4 +633,21 @@ func (ex *Exec) appendCall(v ssa.Value, cc *ssa.CallCommon) {
 	h.set(arr, fmt.Sprintf("(ite %s (store %s (sarr %s) (store %s (bvadd (soff %s) (slen %s)) %s)) (store %s %s (store %s (slen %s) %s)))",
 		inplace, a0, s.T, old, s.T, s.T, xv, a0, r, cpy, s.T, xv))
 	ex.setVal(v, fmt.Sprintf("(ite %s (mk_slice (sarr %s) (soff %s) %s (scap %s)) (mk_slice %s (_ bv0 64) %s %s))", inplace, s.T, s.T, nl, s.T, r, nl, nc))
+}
+
+// isTypeInvOwner: is the function being verified an owner of any type invariant?
+// (owners must re-establish invariants explicitly before calling out)
+func (ex *Exec) isTypeInvOwner() bool {
+	name := ex.vc.fnName()
+	for _, ti := range ex.vc.ctx.cf.TypeInvs {
+		if ti.Stable {
+			continue
+		}
+		for _, o := range ti.Owners {
+			if o == name {
+				return true
+			}
+		}
+	}
+	return false
 }
